@@ -182,6 +182,9 @@ func (fv *FuncVC) havoc(ms *modSet, tag string) {
 		if !ok {
 			if t, ok2 := fv.P.HeapKeyType[k]; ok2 {
 				s = fv.sortOf(t)
+			} else if k == "ghost.content" {
+				fv.ensureSort(SBytes)
+				s = SBytes
 			} else {
 				continue // never accessed in this function and unknown type: irrelevant
 			}
@@ -257,6 +260,29 @@ func (fv *FuncVC) rangeLen(h *ssa.BasicBlock) (ssa.Value, bool) {
 }
 
 func (fv *FuncVC) bindRangeLen(env *Env, h *ssa.BasicBlock) {
+	// result_<callee>: the value returned by the one call of <callee> made before the loop
+	// (locals that are not loop-carried have no name in SSA; the call that produced them has)
+	count := map[string]int{}
+	var calls []*ssa.Call
+	for _, b := range fv.Fn.Blocks {
+		for _, in := range b.Instrs {
+			if c, ok := in.(*ssa.Call); ok {
+				if f := c.Call.StaticCallee(); f != nil {
+					count[f.Name()]++
+					calls = append(calls, c)
+				}
+			}
+		}
+	}
+	for _, c := range calls {
+		f := c.Call.StaticCallee()
+		if count[f.Name()] != 1 || !c.Block().Dominates(h) || c.Block() == h {
+			continue
+		}
+		if val, ok := fv.vals[c]; ok && val.T.S != "" {
+			env.names["result_"+f.Name()] = val
+		}
+	}
 	if v, ok := fv.rangeLen(h); ok {
 		if val, ok := fv.vals[v]; ok {
 			env.names["rangelen"] = val
